@@ -48,7 +48,20 @@ let handler r =
   | "det_swap" -> let t = table r in let i = integer r in let j = integer r in
       let t' = List.mapi (fun k row -> if k = i then List.nth t j else if k = j then List.nth t i else row) t in
       put_f (ok (determinant fops (ok (mat_of_entries t)))); put_f (ok (determinant fops (ok (mat_of_entries t'))))
-  | "inverse" -> let a = rd_mat r in put_mat (ok (inverse fops a))
+  (* the statement-by-statement model of Inverse() (C05_Model2.inverse_lbl: work array changed in place, std::swap of rows,
+     N calls of Delete_Column(0)) gives the printed answer; it must agree with the table model `inverse` (the term of the
+     theorems) in outcome and bit for bit (compare: nan = nan, -0. <> 0. is not distinguished by compare, so the bits are compared) *)
+  | "inverse" -> let a = rd_mat r in
+      let x1 = inverse_lbl fops a and x0 = inverse fops a in
+      let same = match x1, x0 with
+        | Ok m1, Ok m0 -> m1.mrows = m0.mrows && m1.mcols = m0.mcols
+            && List.length m1.mcomps = List.length m0.mcomps
+            && List.for_all2 (fun r1 r0 -> List.length r1 = List.length r0
+                 && List.for_all2 (fun u v -> Int64.bits_of_float u = Int64.bits_of_float v) r1 r0) m1.mcomps m0.mcomps
+        | Exit, Exit | OOB, OOB | Fuel, Fuel -> true
+        | _, _ -> false in
+      if not same then raise (Out "MODEL_SPLIT inverse_lbl<>inverse");
+      put_mat (ok x1)
   (* det A, det B, det (A*B), det (A^T) *)
   | "det_laws" -> let a = rd_mat r in let b = rd_mat r in
       put_f (ok (determinant fops a)); put_f (ok (determinant fops b));
